@@ -296,6 +296,7 @@ def run(ctx):
 # ----------------------------------------------------------------------------------------------------------------------
     check_continuation_tests(ctx)
     check_singleton_wrappers(ctx)
+    check_star_paren_owner(ctx)
 
 
 def check_use(ctx, F):
@@ -486,3 +487,82 @@ def check_singleton_wrappers(ctx):
                           w.lineno, sample={'function': fi.key, 'decided_for': sorted(mentioned & set(KIND_LEVEL) | mentioned & {'BoolOp', 'UnaryOp'})})
     if n < 3:
         raise AnalysisError(f'only {n} singleton slice wrappers with hand-written parenthesization found')
+
+
+# ---- R9.6 ------------------------------------------------------------------------------------------------------------
+
+def check_star_paren_owner(ctx):
+    """A `Starred` cannot carry grouping parentheses: `_unparenthesize_grouping` on a Starred strips those of its `value` (parameter
+    `star_child`, default true).  A function that may strip a node N which it knows can be a Starred (it computes a flag
+    `<N's ast>.__class__ is Starred`) and decides the strip by asking N `_is_enclosed_or_line(check_pars=<not literally True>)` ("would
+    you survive without your own parentheses?") asks the wrong node in the Starred case: N has no own parentheses and the value's count
+    as an enclosure whatever `check_pars` says.  The same question has to be put to the value child under the flag — unless
+    `_is_enclosed_or_line` itself treats Starred."""
+    from ..struct import parent_map, enclosing_tests
+    ctx.rule('R9.6', 'where the parentheses of a possibly-Starred node are stripped on the strength of `_is_enclosed_or_line(check_pars=...)`, '
+                     'the Starred case asks its value child (the owner of the parentheses) without them', 1)
+    ieol = ctx.repo.funcs('fst_core', '_is_enclosed_or_line')
+    if not ieol:
+        raise AnalysisError('_is_enclosed_or_line not found')
+    if any(isinstance(x, ast.Name) and x.id == 'Starred' for x in ast.walk(ieol[0].node)):
+        ctx.check('R9.6', True, 'fst_core', '_is_enclosed_or_line', 'Starred handled inside _is_enclosed_or_line', '', ieol[0].lineno)
+        return
+    n_inst = 0
+    for fi in ctx.repo.all_funcs():
+        fn = fi.node
+        if isinstance(fn, ast.Lambda) or '<locals>' in fi.qualname:
+            continue
+        flags = {}                    # flag name -> name of the ast variable tested
+        for x in ast.walk(fn):
+            if isinstance(x, ast.Assign) and len(x.targets) == 1 and isinstance(x.targets[0], ast.Name) and isinstance(x.value, ast.Compare) and \
+                    len(x.value.ops) == 1 and isinstance(x.value.ops[0], ast.Is) and norm(x.value.comparators[0]) == 'Starred' and \
+                    isinstance(x.value.left, ast.Attribute) and x.value.left.attr == '__class__' and isinstance(x.value.left.value, ast.Name):
+                flags[x.targets[0].id] = x.value.left.value.id
+        if not flags:
+            continue
+        # node variables whose `.a` is the tested ast variable:  put_ast = put_fst.a
+        owners = {}
+        for x in ast.walk(fn):
+            if isinstance(x, ast.Assign) and len(x.targets) == 1 and isinstance(x.targets[0], ast.Name) and x.targets[0].id in flags.values() and \
+                    isinstance(x.value, ast.Attribute) and x.value.attr == 'a' and isinstance(x.value.value, ast.Name):
+                owners[x.value.value.id] = x.targets[0].id
+        par = parent_map(fn)
+        for node_var, ast_var in owners.items():
+            flag = [f for f, a in flags.items() if a == ast_var][0]
+            strips = [x for x in ast.walk(fn) if isinstance(x, ast.Call) and call_name(x) == '_unparenthesize_grouping' and
+                      isinstance(x.func, ast.Attribute) and norm(x.func.value) == node_var and
+                      not any(k.arg == 'star_child' and isinstance(k.value, ast.Constant) and k.value.value is False for k in x.keywords)]
+            if not strips:
+                continue
+            n_inst += 1
+            ctx.check('R9.6', True, fi.module, fi.qualname, f'{node_var} (possibly Starred) is stripped at {len(strips)} site(s)', '', strips[0].lineno)
+
+            def queries(recv_ok):
+                out = []
+                for x in ast.walk(fn):
+                    if isinstance(x, ast.Call) and call_name(x) == '_is_enclosed_or_line' and isinstance(x.func, ast.Attribute) and recv_ok(x.func.value):
+                        cp = [k.value for k in x.keywords if k.arg == 'check_pars']
+                        if cp and not (isinstance(cp[0], ast.Constant) and cp[0].value is True):
+                            out.append((x, cp[0]))
+                return out
+            child_aliases = {f'{ast_var}.value.f'}
+            for x in ast.walk(fn):
+                if isinstance(x, ast.Assign) and len(x.targets) == 1 and isinstance(x.targets[0], ast.Name) and norm(x.value) == f'{ast_var}.value':
+                    child_aliases.add(x.targets[0].id + '.f')
+                if isinstance(x, ast.Assign) and len(x.targets) == 1 and isinstance(x.targets[0], ast.Name) and norm(x.value) == f'{ast_var}.value.f':
+                    child_aliases.add(x.targets[0].id)
+            on_node = queries(lambda r: norm(r) == node_var)
+            on_child = []
+            for c, cp in queries(lambda r: norm(r) in child_aliases):
+                tests = enclosing_tests(fn, c, par)
+                if any(pol and any(isinstance(y, ast.Name) and y.id == flag for y in ast.walk(t)) and
+                       not (isinstance(t, ast.UnaryOp) and isinstance(t.op, ast.Not)) for t, pol in tests):
+                    on_child.append(c)
+            for c, cp in on_node:
+                ctx.check('R9.6', bool(on_child), fi.module, fi.qualname, f'{norm(c, 70)} decides a strip of a possibly-Starred node',
+                          f'`{node_var}` may be a Starred (`{flag}`) and `{node_var}._unparenthesize_grouping()` then strips the parentheses of its '
+                          f'value, but only `{node_var}` is asked whether it stays one logical line without its parentheses: for a Starred the '
+                          f'value\'s parentheses count as an enclosure whatever check_pars says, so `*(a⏎+ b)` is stripped to `*a⏎+ b`', c.lineno,
+                          sample={'function': fi.key, 'flag': flag, 'node': node_var, 'child_queries': len(on_child)})
+    if n_inst < 1:
+        raise AnalysisError('no possibly-Starred strip decision found (anchor vanished)')
